@@ -47,6 +47,7 @@ class Author(models.Model):
     rank = models.IntegerField(default=1)
     org = models.ForeignKey(Org, null=True, on_delete=models.CASCADE, related_name="authors")
     info = models.ForeignKey(AuthorInfo, null=True, on_delete=models.CASCADE, related_name="+")
+    home = models.ForeignKey(Org, null=False, default=1, on_delete=models.CASCADE, related_name="+")   # a NOT NULL key
 
     class Meta:
         app_label = "djapp"
